@@ -1,1 +1,167 @@
-/- property theorems of C11 (only theorems + non-vacuity examples live here) -/
+import Got.Lemmas.CodecRoundtrip
+/-
+C11 — the iox codec round-trips every value and keeps the little-endian / LEB128 wire format.
+
+Model: `Got.Model.Codec` (writers = the bytes appended to the stream buffer, readers = functions of `(buf, pos)`), written
+over `BitVec` with the Go operators, the shift amounts / masks / bounds taken from the literal tables regenerated from the
+Go source. Specification: `Got.Spec.Codec` (`leBytes`, `leb128`, `twoCompl`, `prefixed`), independent of the model.
+All statements are for EVERY value / every list of values / every surrounding stream content.
+Only theorems and non-vacuity examples live in this file.
+-/
+open Got.Model.Codec Got.Spec.Codec Got.Lemmas.Codec Got.Facts
+
+/-! ## the literals of the Go source the model is built from (re-checked whenever the source changes) -/
+
+theorem C11_facts_literals :
+    lits_iox_OctetsStream_WriteBool = [1] ∧ lits_iox_OctetsStream_ReadBool = [1] ∧
+    lits_iox_OctetsStream_WriteInt16 = [8] ∧ lits_iox_OctetsStream_WriteInt32 = [8, 16, 24] ∧
+    lits_iox_OctetsStream_WriteInt64 = [8, 16, 24, 32, 40, 48, 56] ∧
+    lits_iox_OctetsStream_ReadInt16 = [2, 0, 0, 1, 8] ∧
+    lits_iox_OctetsStream_ReadInt32 = [4, 0, 0, 1, 8, 2, 16, 3, 24] ∧
+    lits_iox_OctetsStream_ReadInt64 = [8, 0, 0, 1, 8, 2, 16, 3, 24, 4, 32, 5, 40, 6, 48, 7, 56] ∧
+    lits_iox_OctetsWriter_Write7BitEncodedInt = [127, 4294967168, 7] ∧
+    lits_iox_OctetsReader_Read7BitEncodedInt = [0, 0, 28, 7, 0, 127, 127, 0, 15, 0, 28] ∧
+    lits_iox_OctetsReader_ReadBytes = [0, 0] ∧ lits_iox_OctetsStream_Write = [0] := by
+  decide
+
+/-! ## wire format: what each writer appends -/
+
+theorem C11_wire_bool (b : Bool) : writeBool b = leBytes 1 (if b then 1 else 0) := by
+  cases b <;> rfl
+
+theorem C11_wire_byte (b : Byte) : writeByte b = leBytes 1 b.toNat := by
+  rw [leBytes_one_byte]; rfl
+
+/-- int16: two bytes, little-endian two's complement — for every Go `int16` value `z` -/
+theorem C11_wire_int16 (d : BitVec 16) :
+    writeInt16 d = leBytes 2 (twoCompl 16 d.toInt) ∧ twoCompl 16 d.toInt = d.toNat ∧ (writeInt16 d).length = 2 := by
+  rw [twoCompl_toInt]; exact ⟨writeInt16_wire d, rfl, rfl⟩
+
+theorem C11_wire_int32 (d : BitVec 32) :
+    writeInt32 d = leBytes 4 (twoCompl 32 d.toInt) ∧ twoCompl 32 d.toInt = d.toNat ∧ (writeInt32 d).length = 4 := by
+  rw [twoCompl_toInt]; exact ⟨writeInt32_wire d, rfl, rfl⟩
+
+theorem C11_wire_int64 (d : BitVec 64) :
+    writeInt64 d = leBytes 8 (twoCompl 64 d.toInt) ∧ twoCompl 64 d.toInt = d.toNat ∧ (writeInt64 d).length = 8 := by
+  rw [twoCompl_toInt]; exact ⟨writeInt64_wire d, rfl, rfl⟩
+
+example : writeInt32 (BitVec.ofInt 32 (-2)) = [0xfe#8, 0xff#8, 0xff#8, 0xff#8] := by decide
+example : writeInt16 (BitVec.ofInt 16 (-32768)) = [0x00#8, 0x80#8] := by decide
+example : leBytes 4 (twoCompl 32 (-2)) = [0xfe#8, 0xff#8, 0xff#8, 0xff#8] := by decide
+
+/-- Write7BitEncodedInt terminates and appends the unsigned LEB128 of the 32-bit pattern: 1 to 5 bytes -/
+theorem C11_wire_7bit (d : BitVec 32) :
+    write7 d = some (leb128 (twoCompl 32 d.toInt)) ∧ twoCompl 32 d.toInt = d.toNat ∧
+      1 ≤ (leb128 d.toNat).length ∧ (leb128 d.toNat).length ≤ 5 := by
+  rw [twoCompl_toInt]
+  have hd := d.isLt
+  have hp : 2 ^ 32 ≤ 128 ^ (4 + 1) := by decide
+  have hl := leb128_length 4 d.toNat (Nat.lt_of_lt_of_le hd hp)
+  exact ⟨write7_eq d, rfl, hl.1, hl.2⟩
+
+example : write7 (BitVec.ofInt 32 (-1)) = some [0xff#8, 0xff#8, 0xff#8, 0xff#8, 0x0f#8] := by decide
+example : write7 (BitVec.ofInt 32 300) = some [0xac#8, 0x02#8] := by decide
+example : leb128 16384 = [0x80#8, 0x80#8, 0x01#8] := by
+  rw [leb128_ge _ (by decide), leb128_ge _ (by decide), leb128_lt _ (by decide)]
+
+/-- WriteBytes / WriteString: 7-bit length prefix, then the raw bytes (lengths below 2^31: the prefix is an int32) -/
+theorem C11_wire_bytes (data : List Byte) (h : data.length < 2 ^ 31) :
+    writeBytes data = some (prefixed data) ∧ writeString data = some (prefixed data) ∧
+      prefixed data = leb128 data.length ++ data :=
+  ⟨(rt_bytes data h [] []).1, (rt_bytes data h [] []).1, rfl⟩
+
+example : writeBytes [0x61#8, 0xff#8] = some [2#8, 0x61#8, 0xff#8] := by decide
+
+/-- stream.Write appends the bytes unchanged -/
+theorem C11_wire_raw (data : List Byte) : writeRaw data = data := writeRaw_eq data
+
+/-- every sequence of typed writes produces the concatenation of the documented encodings -/
+theorem C11_wire_seq (vs : List Val) (h : ∀ v ∈ vs, v.valid) : encode vs = some (vs.flatMap wire) :=
+  encode_wire vs h
+
+/-! ## round trips: reading right behind `pre`, in front of any `rest`, what the writer appended -/
+
+theorem C11_roundtrip_bool (pre rest : List Byte) (b : Bool) :
+    readBool (pre ++ writeBool b ++ rest) pre.length = ⟨.ok b, pre.length + (writeBool b).length, 0⟩ :=
+  rt_bool pre rest b
+
+theorem C11_roundtrip_byte (pre rest : List Byte) (b : Byte) :
+    readByte (pre ++ writeByte b ++ rest) pre.length = ⟨.ok b, pre.length + (writeByte b).length, 0⟩ :=
+  rt_byte pre rest b
+
+theorem C11_roundtrip_int16 (pre rest : List Byte) (d : BitVec 16) :
+    readInt16 (pre ++ writeInt16 d ++ rest) pre.length = ⟨.ok d, pre.length + (writeInt16 d).length, 0⟩ :=
+  rt_int16 pre rest d
+
+theorem C11_roundtrip_int32 (pre rest : List Byte) (d : BitVec 32) :
+    readInt32 (pre ++ writeInt32 d ++ rest) pre.length = ⟨.ok d, pre.length + (writeInt32 d).length, 0⟩ :=
+  rt_int32 pre rest d
+
+theorem C11_roundtrip_int64 (pre rest : List Byte) (d : BitVec 64) :
+    readInt64 (pre ++ writeInt64 d ++ rest) pre.length = ⟨.ok d, pre.length + (writeInt64 d).length, 0⟩ :=
+  rt_int64 pre rest d
+
+theorem C11_roundtrip_7bit (pre rest : List Byte) (d : BitVec 32) :
+    ∃ bs, write7 d = some bs ∧
+      read7 (pre ++ bs ++ rest) pre.length = ⟨.ok d, pre.length + bs.length, 0⟩ :=
+  rt_7bit pre rest d
+
+/-- byte slices (and strings, next theorem) of every length below 2^31, any content (no UTF-8 assumption) -/
+theorem C11_roundtrip_bytes (pre rest data : List Byte) (h : data.length < 2 ^ 31) :
+    ∃ bs, writeBytes data = some bs ∧
+      readBytes (pre ++ bs ++ rest) pre.length = ⟨.ok data, pre.length + bs.length, data.length⟩ :=
+  ⟨_, (rt_bytes data h pre rest).1, (rt_bytes data h pre rest).2⟩
+
+theorem C11_roundtrip_string (pre rest data : List Byte) (h : data.length < 2 ^ 31) :
+    ∃ bs, writeString data = some bs ∧
+      readString (pre ++ bs ++ rest) pre.length = ⟨.ok data, pre.length + bs.length, data.length⟩ :=
+  ⟨_, (rt_bytes data h pre rest).1, (rt_bytes data h pre rest).2⟩
+
+example : (2 : Nat) < 2 ^ 31 ∧ readBytes ([7#8] ++ [2#8, 0x61#8, 0xff#8] ++ [9#8]) 1 = ⟨.ok [0x61#8, 0xff#8], 4, 2⟩ := by
+  decide
+
+/-- stream.Write then stream.Read with a buffer of the same (non-zero) length -/
+theorem C11_roundtrip_raw (pre rest data : List Byte) (h : 0 < data.length) :
+    streamRead (pre ++ writeRaw data ++ rest) pre.length data.length
+      = ⟨.ok (data.length, data), pre.length + data.length, 0⟩ :=
+  rt_raw data h pre rest
+
+/-- every value of every supported type, in any context: the matching read call returns it and consumes exactly the
+    bytes written for it -/
+theorem C11_roundtrip_val (v : Val) (h : v.valid) :
+    ∃ bs, encode1 v = some bs ∧ ∀ pre rest : List Byte,
+      (read1 (pre ++ bs ++ rest) pre.length v.op).out = .ok v ∧
+      (read1 (pre ++ bs ++ rest) pre.length v.op).pos = pre.length + bs.length :=
+  rt_val v h
+
+/-- every sequence of typed values: writing them in order and reading them back with the matching calls returns the
+    same values and consumes exactly the bytes written (also when the stream holds other data before and after) -/
+theorem C11_roundtrip_seq (vs : List Val) (h : ∀ v ∈ vs, v.valid) :
+    ∃ bs, encode vs = some bs ∧ ∀ pre rest : List Byte,
+      decode (pre ++ bs ++ rest) pre.length (vs.map Val.op) = some (vs, pre.length + bs.length) :=
+  rt_seq vs h
+
+/-- … in particular on a fresh stream -/
+theorem C11_roundtrip_seq_fresh (vs : List Val) (h : ∀ v ∈ vs, v.valid) :
+    ∃ bs, encode vs = some bs ∧ decode bs 0 (vs.map Val.op) = some (vs, bs.length) := by
+  obtain ⟨bs, he, hd⟩ := rt_seq vs h
+  refine ⟨bs, he, ?_⟩
+  have := hd [] []
+  simpa using this
+
+example : (∀ v ∈ [Val.i32 (BitVec.ofInt 32 (-2)), Val.str [0x68#8, 0x69#8], Val.v7 300#32, Val.bool true], v.valid) ∧
+    encode [Val.i32 (BitVec.ofInt 32 (-2)), Val.str [0x68#8, 0x69#8], Val.v7 300#32, Val.bool true]
+      = some [0xfe#8, 0xff#8, 0xff#8, 0xff#8, 2#8, 0x68#8, 0x69#8, 0xac#8, 2#8, 1#8] := by
+  refine ⟨?_, by decide⟩
+  intro v hv
+  simp only [List.mem_cons, List.not_mem_nil, or_false] at hv
+  rcases hv with h | h | h | h <;> subst h <;> simp [Val.valid]
+
+/-- the specification decoders invert the specification encoders (sanity of the spec itself) -/
+theorem C11_spec_le_inverse (w n : Nat) : leValue (leBytes w n) = n % 256 ^ w := by
+  induction w generalizing n with
+  | zero => simp [leBytes, leValue, Nat.mod_one]
+  | succ w ih =>
+    have e : (BitVec.ofNat 8 (n % 256)).toNat = n % 256 := by simp
+    simp only [leBytes, leValue, ih, e]
+    rw [Nat.pow_succ, Nat.mul_comm (256 ^ w) 256, Nat.mod_mul]
